@@ -16,7 +16,7 @@
    Third pass: the same for the extended language of model/Builder2.v (TailLoop, Conditional, insert_*, CallIndirect), 15 of
    the 18 rules; fourth pass: all 18 (C01_builder2_valid, under wf_prog2 with liveness-aware premises), and the third
    model model/Builder3.v (functions, modules, control-flow graphs, function constants): conservative over the second,
-   rules 0 and 6 for all its programs.  For the rules not proved for the third language, and for the tracked builder,
+   the structural rules 0, 2, 6 (no premise) and 1 (under croot3) for all its programs.  For the rules not proved for the third language, and for the tracked builder,
    `valid` is evaluated by the monitor on the implementation's own document for every generated program.
 
    `run` is the builder model of model/Builder.v (programs over Dfg / add_op / add / extend / load /
@@ -554,9 +554,9 @@ Print Assumptions C01_builder3_example.
    refuses a missing parent, Hugr.add_link a missing end; insert_hugr re-indexes consistently) and no edge touches the
    root (the builders only link nodes created after the root or found in the interpreter's dictionaries — wires,
    statements, functions, module constants —, which never name the root).  The same for the nested documents of
-   function-valued constants.  The other rules are MONITORED for programs of the third language that are not embedded
-   ones (`valid` on the implementation's document; the correspondence run3s == document holds on every generated
-   program). *)
+   function-valued constants.  Rules 1 (under croot3) and 2 (no premise) follow below; the typed and non-local rules
+   (3-5, 7-17) are MONITORED for programs of the third language that are not embedded ones (`valid` on the implementation's
+   document; the correspondence run3s == document holds on every generated program). *)
 Theorem C01_builder3_index_root : forall tys sigs p g,
   run3 tys sigs p = Ok g -> r_index g = true /\ r_root_no_edges g = true.
 Proof. exact run3_index_root. Qed.
@@ -609,3 +609,10 @@ Theorem C01_builder3_first_second_subs : forall tys sigs p subs g gs, run3s tys 
   r_first_second g = true /\ forall x, In x gs -> r_first_second x = true.
 Proof. exact run3s_first_second. Qed.
 Print Assumptions C01_builder3_first_second_subs.
+
+(* The structural rules 0, 1, 2 and 6 together, for every program of the third language that meets croot3 (needed for
+   rule 1 only). *)
+Theorem C01_builder3_structural : forall tys sigs p g, run3 tys sigs p = Ok g -> croot3 p = true ->
+  r_index g = true /\ r_child_tags g = true /\ r_first_second g = true /\ r_root_no_edges g = true.
+Proof. exact run3_structural. Qed.
+Print Assumptions C01_builder3_structural.
